@@ -53,6 +53,5 @@ def check_accumulators(ctx, rule, module_names, min_loops=1):
             if not hits:
                 ctx.ok(rule, f"{f.qualname}: {len(loops)} loops", f, f.node, sample=False)
     if n < min_loops:
-        from .report import AnalysisError
-        raise AnalysisError(f"{rule}: only {n} loops seen in {module_names}")
+        ctx.defer(f"{rule}: only {n} loops seen in {module_names}")
     return n
